@@ -12,6 +12,7 @@ Inductive op :=
 | OForceChain (chain : nat) (names : list str) (recompute delete : bool)
 | OHasData (chain : nat) (name : str)
 | OForceMulti (chains : list nat) (names : list str) (recompute delete : bool)   (* MultiChain.force *)
+| OInfo (chain : nat) (name : str)              (* task.run_info and task.log *)
 | OFlags (chain : nat)                          (* is_forced and has_data of every task of a chain *)
 | ORestart
 | OSetFail (slugs : list str).
@@ -147,6 +148,25 @@ Section History.
                       ({| h_world := with_store st0 w; h_chains := h_chains h |},
                        ok (VBool (dhas (result_path tc ob) st0)))
                     else (h, ok (VBool false))
+                end
+            end
+        end
+    | OInfo chain name =>
+        match oid_of h chain name with
+        | None => (h, err)
+        | Some id =>
+            match nth_error (w_objs w) id with
+            | None => (h, err)
+            | Some ob =>
+                match cls_of classes_of_world ob with
+                | None => (h, err)
+                | Some tc =>
+                    let st0 := match os_mem (state_of w id) with
+                               | Some _ => w_store w
+                               | None => mkdirs (dir_of_slug (c_slug tc)) (w_store w) end in
+                    ({| h_world := with_store st0 w; h_chains := h_chains h |},
+                     ok (VList [ match dget (info_path tc ob) st0 with Some (FInfo v) => v | _ => VNone end;
+                                 match dget (log_path tc ob) st0 with Some (FLog l) => VList (map VStr l) | _ => VNone end ]))
                 end
             end
         end
